@@ -87,17 +87,17 @@ func czCallerBufioProbe(res *Result, seed uint64) {
 	defer os.Unsetenv("MOBY_DISABLE_PIGZ")
 	for _, size := range []int{4096, 32 * 1024, 64 * 1024} {
 		for _, f := range []string{"none", "gzip-lib"} {
-			pays := [][]byte{czPayload("text", 3000+r.intn(2000), r.next(), false), czPayload("rand", 4000+r.intn(3000), r.next(), false),
-				czPayload("text", 2000+r.intn(2000), r.next(), false)}
-			var encs [][]byte
+			const others = 5
+			var pays, encs [][]byte
 			ok := true
-			for i, p := range pays {
+			for i := 0; i < 2+others; i++ {
+				p := czPayload([]string{"text", "rand"}[i%2], 2000+r.intn(4000), r.next(), false)
 				e := czEncode(f, p, seed+uint64(i))
 				if e.skip != "" || e.prob != "" {
 					ok = false
 					break
 				}
-				encs = append(encs, e.data)
+				pays, encs = append(pays, p), append(encs, e.data)
 			}
 			if !ok {
 				continue
@@ -106,35 +106,51 @@ func czCallerBufioProbe(res *Result, seed uint64) {
 			res.Evaluations++
 			res.Compared++
 			res.count("caller-bufio")
-			br := bufio.NewReaderSize(bytes.NewReader(encs[0]), size)
-			readAll := func(src io.Reader) ([]byte, error) {
-				rc, err := compression.DecompressStream(src)
-				if err != nil {
-					return nil, err
+			verdict := func() (msg string) {
+				defer func() {
+					if x := recover(); x != nil {
+						msg = fmt.Sprintf("panic: %v", x)
+					}
+				}()
+				readAll := func(src io.Reader) ([]byte, error) {
+					rc, err := compression.DecompressStream(src)
+					if err != nil {
+						return nil, err
+					}
+					defer rc.Close()
+					return io.ReadAll(rc)
 				}
-				defer rc.Close()
-				return io.ReadAll(rc)
-			}
-			got0, err0 := readAll(br)
-			// the caller re-uses its reader for the next source; in between, an unrelated stream is decompressed
-			br.Reset(bytes.NewReader(encs[1]))
-			other, errO := compression.DecompressStream(bytes.NewReader(encs[2]))
-			got1, err1 := readAll(br)
-			var got2 []byte
-			var err2 error
-			if errO == nil {
-				got2, err2 = io.ReadAll(other)
-				other.Close()
-			} else {
-				err2 = errO
-			}
-			for i, g := range [][]byte{got0, got1, got2} {
-				e := []error{err0, err1, err2}[i]
-				if e != nil || !bytes.Equal(g, pays[i]) {
-					res.problem(Problem{Kind: "oracle", Stream: "compress", Case: caseText,
-						Msg: fmt.Sprintf("C16: a caller-supplied bufio.Reader of %d bytes, re-used for a second %s stream while a third is open: stream %d gave %d bytes (err %v), want its own %d bytes; first difference at %d", size, f, i, len(g), e, len(pays[i]), czFirstDiff(g, pays[i]))})
-					break
+				br := bufio.NewReaderSize(bytes.NewReader(encs[0]), size)
+				got, err := readAll(br)
+				if err != nil || !bytes.Equal(got, pays[0]) {
+					return fmt.Sprintf("the first stream gave %d bytes (err %v), want %d", len(got), err, len(pays[0]))
 				}
+				// the caller re-uses its reader for the next source; in between, unrelated streams are opened
+				br.Reset(bytes.NewReader(encs[1]))
+				var open []io.ReadCloser
+				for i := 0; i < others; i++ {
+					rc, err := compression.DecompressStream(bytes.NewReader(encs[2+i]))
+					if err != nil {
+						return fmt.Sprintf("unrelated stream %d: %v", i, err)
+					}
+					open = append(open, rc)
+				}
+				got, err = readAll(br)
+				if err != nil || !bytes.Equal(got, pays[1]) {
+					return fmt.Sprintf("the stream read through the re-used reader gave %d bytes (err %v), want its own %d bytes; first difference at %d", len(got), err, len(pays[1]), czFirstDiff(got, pays[1]))
+				}
+				for i, rc := range open {
+					got, err := io.ReadAll(rc)
+					rc.Close()
+					if err != nil || !bytes.Equal(got, pays[2+i]) {
+						return fmt.Sprintf("unrelated stream %d gave %d bytes (err %v), want its own %d bytes; first difference at %d", i, len(got), err, len(pays[2+i]), czFirstDiff(got, pays[2+i]))
+					}
+				}
+				return ""
+			}()
+			if verdict != "" {
+				res.problem(Problem{Kind: "oracle", Stream: "compress", Case: caseText,
+					Msg: fmt.Sprintf("C16: a caller-supplied bufio.Reader of %d bytes, read to the end of a %s stream and re-used by the caller while %d other streams are open: %s", size, f, others, verdict)})
 			}
 		}
 	}
